@@ -20,7 +20,7 @@ for m in sorted(glob.glob('/verif/seeded/C*-m*/meta.json')):
     j=json.load(open(m)); d=os.path.dirname(m)
     needs=NEEDS.get(os.path.basename(d), j.get('needs','see notes.md'))
     res={0:'NOT caught',1:'caught (VIOLATION)',2:'harness error'}.get(j.get('check_quick_exit'),str(j.get('check_quick_exit')))
-    if j.get('caught_by'): res+=' — '+j['caught_by']
+    if j.get('caught_by') and j.get('check_quick_exit')!=1: res+=' — '+j['caught_by']
     srows.append("| %s | %s | %s | %s / %s | %s |"%(os.path.basename(d),j['property'],needs.replace('|','/')[:200],'yes' if j.get('demo_exit_with_patch') else 'NO','yes' if j.get('demo_exit_without_patch')==0 else 'NO',res))
 st="\n".join(srows)
 def put(s,name,body):
